@@ -8,6 +8,7 @@ import (
 	"context"
 	"encoding/json"
 	"errors"
+	"expvar"
 	"fmt"
 	"os"
 	"path/filepath"
@@ -621,7 +622,7 @@ func (e *Env) Apply(s Step) bool {
 		e.mu.Unlock()
 		decl := dedupe(append(append([]string(nil), s.Declared...), s.StructNames...))
 		e.Log(Event{"ev": "newstore", "declared": decl, "allowlookup": s.AllowLookup, "expiry": s.Expiry, "auto": s.Auto, "bad": bad,
-			"fileclient": false, "deadline": s.Deadline, "cache": map[string]any{"kind": kind, "doc": doc, "wfail": e.cache != nil && e.cache.wfail}})
+			"fileclient": false, "structs": append([]string{}, s.StructNames...), "deadline": s.Deadline, "cache": map[string]any{"kind": kind, "doc": doc, "wfail": e.cache != nil && e.cache.wfail}})
 		go func() {
 			var st *setec.Store
 			var err error
@@ -887,6 +888,28 @@ func (e *Env) UnparkAll() {
 		sort.Strings(ps)
 		e.Apply(Step{Do: "unpark", Caller: ps[0]})
 	}
+}
+
+// Metrics: what the running store exports (counters that are functions of the history), for the "end" line.
+func (e *Env) Metrics() map[string]any {
+	st := e.theStore()
+	if st == nil {
+		return map[string]any{"known": "f", "polls": 0, "pollerrs": 0, "fetches": 0}
+	}
+	out := map[string]any{"known": "t", "polls": 0, "pollerrs": 0, "fetches": 0}
+	st.Metrics().Do(func(kv expvar.KeyValue) {
+		if iv, ok := kv.Value.(*expvar.Int); ok {
+			switch kv.Key {
+			case "counter_poll_initiated":
+				out["polls"] = int(iv.Value())
+			case "counter_poll_errors":
+				out["pollerrs"] = int(iv.Value())
+			case "counter_secret_fetch":
+				out["fetches"] = int(iv.Value())
+			}
+		}
+	})
+	return out
 }
 
 func (e *Env) theStore() *setec.Store { e.mu.Lock(); defer e.mu.Unlock(); return e.store }
